@@ -25,7 +25,7 @@ ASSUMPTIONS = [
     "only values inside the field's range are written (the quantifier says 'all 2^len field values')",
     "NaN payloads are read (compared as NaN) but not written",
 ]
-BUDGET = {"quick": 50, "thorough": 400}
+BUDGET = {"quick": 150, "thorough": 400}
 
 SUB8 = (rc.INTEGER8, rc.UNSIGNED8)
 
